@@ -1,3 +1,13 @@
+CONSTANTS
+  Variant = "exact"
+  Keys <- NoKeys
+  LeafTypes = {}
+  Depth = 0
+  MaxArr = 0
+  Notations = {}
+  Entries = {}
+  PathLen = 0
+  MaxExcl = 0
 SPECIFICATION TraceSpec
 CONSTRAINT HWM
 POSTCONDITION Post
